@@ -347,6 +347,7 @@ class CallsMixin:
         self.site('S-reshape', node, status, detail,
                   {'from': _ds(a.dims), 'to': _ds(new), 'order': order})
         r = ARR(tuple(new), a.dt)
+        r.nonlin = a.nonlin
         r.lo = self.lo_of(a)
         r.org = a.org
         r.taint = a.taint
@@ -661,6 +662,15 @@ class CallsMixin:
         self.site('S-einsum', node, status, detail, facts)
         r = ARR(tuple(dims), 'f') if dims else FLOAT()
         r.taint = taint
+        if any(o.nonlin for o in ops):
+            self.site('L-lin', node, 'violation',
+                      'an operand of this contraction is a non-linear '
+                      'function of the cores (clipped / absolute value / '
+                      'power): partial sums no longer telescope')
+            if r.k == 'arr':
+                r.nonlin = True
+        else:
+            self.site('L-lin', node, 'ok')
         lgs = [o.lg for o in ops]
         if ops and all(l is not None for l in lgs):
             tot = lgs[0]
@@ -918,6 +928,8 @@ class CallsMixin:
         r.unit = aa.unit
         r.deg = aa.deg
         r.nonneg = aa.nonneg
+        if r.k == 'arr':
+            r.nonlin = aa.nonlin
         return r
 
     def _mark_sum(self, r, a, axis_v):
@@ -1042,6 +1054,7 @@ class CallsMixin:
             r.dt = 'b'
         elif short in ('abs', 'absolute', 'square'):
             r.nonneg = True
+            r.nonlin = True
         elif short == 'sqrt':
             r.dt = 'f'
             if a.lg is not None:
@@ -1054,6 +1067,7 @@ class CallsMixin:
                 r.orth = 'sing'
                 r.src = a.src
             r.nonneg = True
+            r.nonlin = True
         elif short in ('cos', 'sin', 'arccos', 'exp', 'log', 'log2'):
             r.dt = 'f'
             r.lg = None
@@ -1129,6 +1143,7 @@ class CallsMixin:
         a, b = self.as_arr(pos[0]), self.as_arr(pos[1])
         dims = self.broadcast(a.dims, b.dims, node)
         r = ARR(dims, promote_dt(a, b), taint=a.taint | b.taint)
+        r.nonlin = True
         for x in pos[:2]:
             if x.has_const() and isinstance(x.c, (int, float)) and x.c >= 0:
                 r.nonneg = True
@@ -1138,7 +1153,7 @@ class CallsMixin:
 
     def n_clip(self, pos, kw, node, env):
         a = self.as_arr(pos[0])
-        return a.copy(org=frozenset(), orth=None)
+        return a.copy(org=frozenset(), orth=None, nonlin=True)
 
     def n_where(self, pos, kw, node, env):
         if len(pos) == 1:
@@ -1191,7 +1206,8 @@ class CallsMixin:
         da = (ONE,) * (n - len(a.dims)) + tuple(a.dims)
         rp = (ONE,) * (n - len(reps)) + tuple(reps)
         return ARR(tuple(None if x is None or y is None else x * y
-                         for x, y in zip(da, rp)), a.dt)
+                         for x, y in zip(da, rp)), a.dt, deg=a.deg,
+                   nonlin=a.nonlin)
 
     def n_diag(self, pos, kw, node, env):
         a = self.as_arr(pos[0])
@@ -1202,11 +1218,12 @@ class CallsMixin:
             r.orth = {'sigma': 'sigma', 'halfvec': 'half'}.get(a.orth)
             r.unit = a.unit
             r.lg = a.lg
+            r.deg = a.deg
             return r
         if len(a.dims) == 2:
             return ARR((pmin(a.dims[0], a.dims[1]) if a.dims[0] is not None
                         and a.dims[1] is not None else None,), a.dt,
-                       org=a.org, taint=a.taint)
+                       org=a.org, taint=a.taint, deg=a.deg)
         return ARR(None, a.dt)
 
     def n_searchsorted(self, pos, kw, node, env):
